@@ -36,6 +36,14 @@ fn validate_even(x: &i8) -> Result<(), OddError> {
     }
 }
 
+const fn clamp_pct(x: u8) -> u8 {
+    if x > 100 {
+        100
+    } else {
+        x
+    }
+}
+
 #[derive(Debug, Clone, PartialEq, Serialize, Deserialize)]
 pub struct Point {
     pub x: i32,
@@ -200,6 +208,18 @@ decls! {
     gen = |r| gen_int(r, -4, 4, -128, 127) as i8;
     corpus = vec![0, 1, -1, -128, 127];
 
+    #[nutype(const_fn, sanitize(with = clamp_pct), validate(greater_or_equal = 5), derive(Debug, Clone, Serialize, Deserialize))]
+    struct ConstPct(u8);
+    family = "integer"; validated = true; core = false;
+    gen = |r| gen_int(r, 5, 100, 0, 255) as u8;
+    corpus = vec![5, 4, 100, 101, 255, 0];
+
+    #[nutype(const_fn, derive(Debug, Clone, Serialize, Deserialize))]
+    struct ConstFreeI16(i16);
+    family = "integer"; validated = false; core = false;
+    gen = |r| gen_int(r, -3, 3, -32768, 32767) as i16;
+    corpus = vec![0, -32768, 32767];
+
     // ------------------------------------------------------------------ floats
     #[nutype(validate(finite), derive(Debug, Clone, PartialEq, Eq, PartialOrd, Ord, Serialize, Deserialize))]
     struct FiniteF64(f64);
@@ -230,6 +250,12 @@ decls! {
     family = "float"; validated = true; core = false;
     gen = |r| gen_f32(r, -1.0, 1.0);
     corpus = vec![0.0, 1.0, 0.99999994, 2.0, -2.0, f32::NAN];
+
+    #[nutype(const_fn, validate(greater_or_equal = -1.0, less = 1.0), derive(Debug, Clone, Serialize, Deserialize))]
+    struct ConstRatio(f64);
+    family = "float"; validated = true; core = false;
+    gen = |r| gen_f64(r, -1.0, 1.0);
+    corpus = vec![-1.0, 1.0, 0.9999999999999999, -1.0000000000000002, -0.0, f64::NAN];
 
     // ------------------------------------------------------------------ strings
     #[nutype(sanitize(trim), validate(not_empty, len_char_max = 8), derive(Debug, Clone, PartialEq, Eq, PartialOrd, Ord, Serialize, Deserialize))]
